@@ -49,25 +49,28 @@ Print Assumptions generator_builds_the_net.
    and the loop counters that RefSem.start_stmt denotes.  [NC]: the program has no counting
    loop (then nothing is required of parameter lists, see Abs.sok) *)
 Theorem start_simulation :
-  forall NC tasks env, env_quiet env -> forall orc imm, (forall k, imm k = false) -> ec_orc env = orc ->
-  forall N0 f, StartOK NC tasks env orc imm N0 f.
+  forall NC tasks env, env_quiet env -> forall orc imm, (forall k, ec_imm env k = imm k) ->
+  forall IM, (IM = false -> forall k, imm k = false) -> ec_orc env = orc ->
+  forall N0 f, StartOK NC tasks env orc imm IM N0 f.
 Proof. exact start_ok. Qed.
 Print Assumptions start_simulation.
 
 (* delivering a completion: the net fires exactly the transitions that correspond to
    RefSem.deliver and ends in the related state (or at the component's exit transition) *)
 Theorem deliver_simulation :
-  forall NC tasks env, env_quiet env -> forall orc imm, (forall k, imm k = false) -> ec_orc env = orc ->
-  forall N0 f, DelS NC tasks env orc imm N0 f.
+  forall NC tasks env, env_quiet env -> forall orc imm, (forall k, ec_imm env k = imm k) ->
+  forall IM, (IM = false -> forall k, imm k = false) -> ec_orc env = orc ->
+  forall N0 f, DelS NC tasks env orc imm IM N0 f.
 Proof. exact del_ok. Qed.
 Print Assumptions deliver_simulation.
 
 (* whole scripts, from the state after Scheduler(...) *)
 Theorem script_simulation :
-  forall NC tasks env, env_quiet env -> forall orc imm, (forall k, imm k = false) -> ec_orc env = orc ->
+  forall NC tasks env, env_quiet env -> forall orc imm, (forall k, ec_imm env k = imm k) ->
+  forall IM, (IM = false -> forall k, imm k = false) -> ec_orc env = orc ->
   forall body N0, NetOf body N0 -> frag_block body = true -> sok_block NC true body = true ->
   forall fu script sc ns tr,
-    forallb ok_call script = true -> Rel NC body N0 sc ns ->
+    forallb (ok_call IM) script = true -> Rel NC IM body N0 sc ns ->
     run_script orc imm fu body sc script = Ok tr ->
     exists f0, forall f, f0 <= f -> net_run_script tasks env f ns script = Ok tr.
 Proof. exact script_sim. Qed.
@@ -285,3 +288,41 @@ Proof.
   exists f0. intros f Hf. rewrite Href. apply H. exact Hf.
 Qed.
 Print Assumptions exl_refines.
+
+(* Immediate completions: the engine reports some services as finished from inside their
+   service-started notification ([rc_imm]); everything that such a completion triggers -- the
+   rest of the task, further iterations of loops, the end of the order -- then runs nested in
+   that notification.  [exi_case]: While loops, a Parallel and task calls, a mixed pattern of
+   immediate and later completions, further functions registered for service-finished and
+   task-started notifications.  [exj_case]: every service of the counting-loop program above is
+   completed at once: the whole order runs inside the start call. *)
+Definition exi_case : runcase :=
+  {| rc_prog := {| p_structs := []; p_tasks := exw_tasks |};
+     rc_vals := map (fun n => VStruct [(4, VNum (QArith_base.Qmake n 1%positive))]) [1; 1; 7; 1; 1; 7; 7; 1; 7]%Z;
+     rc_imm := [true; false; true; true; false; true];
+     rc_script := [ARegister SF 3; ARegister TS 4; AStart; AFinish 0; AFinish 1; AJunk; AFinish 2; AFinish 3; AFinish 3;
+                   AFinish 4; AFinish 5; AFinish 6; AFinish 7; AFinish 8];
+     rc_react := [None]; rc_react_all := false; rc_mutate := 0; rc_test_ids := true |}.
+Definition exj_case : runcase :=
+  {| rc_prog := {| p_structs := []; p_tasks := exl_tasks |};
+     rc_vals := map (fun n => VStruct [(4, VNum (QArith_base.Qmake n 1%positive))]) [2; 1; 2; 7; 2]%Z;
+     rc_imm := [true; true; true; true; true; true; true; true; true; true];
+     rc_script := [AStart; AFinish 0];
+     rc_react := [None]; rc_react_all := false; rc_mutate := 0; rc_test_ids := true |}.
+
+Example exi_in_fragment : in_fragment exi_case = true /\ in_fragment exj_case = true.
+Proof. split; vm_compute; reflexivity. Qed.
+
+Example exi_runs : exists tr, run_ref exi_case = Ok tr /\ List.length tr = 14 /\ existsb (fun r => cr_final r) tr = true
+                              /\ run_net exi_case = Ok tr.
+Proof. eexists. split; [vm_compute; reflexivity|]. split; [reflexivity|]. split; [reflexivity|]. vm_compute. reflexivity. Qed.
+Example exj_runs : exists tr, run_ref exj_case = Ok tr /\ map cr_ret tr = [true; false] /\ existsb (fun r => cr_final r) tr = true
+                              /\ run_net exj_case = Ok tr.
+Proof. eexists. split; [vm_compute; reflexivity|]. split; [reflexivity|]. split; [reflexivity|]. vm_compute. reflexivity. Qed.
+
+Example exi_refines : exists f0, forall f, f0 <= f -> run_net_f f exi_case = run_ref exi_case.
+Proof.
+  destruct exi_runs as (tr & Href & _). destruct (Main.net_refines_ref_fragment exi_case (proj1 exi_in_fragment) tr Href) as [f0 H].
+  exists f0. intros f Hf. rewrite Href. apply H. exact Hf.
+Qed.
+Print Assumptions exi_refines.
